@@ -23,6 +23,60 @@ def suffix(sfx):
     return lambda B, i, t: (callee_of(t) or '').endswith(sfx)
 
 
+def replace_guard(rep, F, cg, M):
+    """`nothing is ever orphaned`: an entry that is overwritten by a move must not be a directory that still lists children"""
+    from panics import sdesc_operand
+    R = 'REPLACE-GUARD'
+    rep.rule(R, 'Memfs::move_p looks up the entry stored under its effective destination (the path whose parent it validates) before the first mutation, on every '
+             'path: a non-empty directory found there is refused instead of being overwritten (its children would stay in the entry map with no parent listing them)')
+    fn = MV + 'move_p'
+    if fn not in F.bodies:
+        rep.add(R, 'replaceguard:move_p:anchor', '%s exists' % fn, False, detail='anchor missing')
+        return
+    B = cg.body(fn)
+    import panics as _pn
+    _pn.PHI = True          # a variable assigned on two paths (dst itself, or dst/<name>) is described by both definitions
+    try:
+        return _replace_guard(rep, F, cg, B, R)
+    finally:
+        _pn.PHI = False
+
+
+def _replace_guard(rep, F, cg, B, R):
+    from panics import sdesc_operand
+    fn = MV + 'move_p'
+    lookups = [(i, t, sdesc_operand(B, t['args'][1])) for i, t in B.calls()
+               if ((callee_of(t) or '').endswith('>::get_entry') or (callee_of(t) or '').endswith('>::contains_entry')) and len(t['args']) > 1]
+    muts = [i for i, t in B.calls() if (callee_of(t) or '').endswith(('>::remove_entry', '>::insert_entry', '>::remove_file', '>::insert_file'))]
+    first = [m for m in muts if not any(B.dominates(o, m) and o != m for o in muts)]
+    # a lookup of the destination itself: its key is computed from the dst parameter (arg3) and is not the parent (`dir(..)`) of something
+    guards = [(i, d) for i, t, d in lookups if 'arg3' in d and not d.startswith('dir(')]
+    ok = bool(first) and bool(guards) and all(any(B.dominates(g, m) for g, d in guards) for m in first)
+    rep.add(R, 'replaceguard:move_p', 'move_p inspects the entry it is about to overwrite', ok, '%s:%d' % (B.file, B.line),
+            '' if ok else 'move_p: no lookup of the effective destination dominates the first mutation (lookups before it: %s) — moving a directory into a directory that '
+            'already holds a non-empty directory of the same name overwrites that entry and orphans its children' % sorted({d[:60] for i, t, d in lookups}))
+
+
+def link_kind(rep, F, cg):
+    """`exactly the regular non-link files have byte content`: an existing symlink must not be taken for the regular file a caller wants to create / fill"""
+    import errguard, re
+    R = 'LINK-KIND'
+    rep.rule(R, 'Memfs::_add rejects a request to create a NON-link entry where a symlink already exists (an error exit guarded by is_symlink(existing) == true), as '
+             'it rejects a link where a non-link exists: otherwise write_all / copy store a data record under the link\'s key')
+    fn = M_ + '_add'
+    if fn not in F.bodies:
+        rep.add(R, 'linkkind:_add:anchor', '%s exists' % fn, False, detail='anchor missing')
+        return
+    eg = errguard.collect_err_guards(F, cg)
+    exits = {k: v for k, v in eg.items() if k.startswith(fn + '|')}
+    pat = re.compile(r'^is_symlink\(get_entry\(arg2,path_buf\(arg3\)\) as Some\.0\)=True$')
+    ok = any(any(pat.match(f) for f in inst) for insts in exits.values() for inst in insts)
+    B = cg.body(fn)
+    rep.add(R, 'linkkind:_add', '_add refuses a non-link entry over an existing symlink', ok, '%s:%d' % (B.file, B.line),
+            '' if ok else '_add has no error exit for `existing entry is a symlink, requested entry is not` (exits: %s): write_all("/link", ..) or copy(file, "/link") '
+            'on an existing link to a file succeed and attach byte content to the link' % sorted(k.split('|')[1] for k in exits))
+
+
 def parent_real_dir(rep, F, cg):
     """`every existing path other than the root has an existing parent that is a REAL directory and lists it`"""
     from errguard import structural_facts
@@ -132,6 +186,8 @@ def run(rep, F, ctx):
 
     pair_rules(rep, F, cg, M)
     parent_real_dir(rep, F, cg)
+    replace_guard(rep, F, cg, M)
+    link_kind(rep, F, cg)
     import siteguard as _sg
     _t = engine.load_table('site_guards.json')
     _sg.site_guard(rep, F, cg, _t, _t['_groups']['C03'])
